@@ -24,6 +24,7 @@ type specCtx struct {
 	depth int
 	qn    *int
 	loop  int // ordinal of the loop whose invariant is being evaluated (0 = none)
+	bound map[string]bool // names bound by quantifiers / let / loop aliases: never shadowed by program variables
 }
 
 func (sc *specCtx) with(name string, v Term) *specCtx {
@@ -33,6 +34,11 @@ func (sc *specCtx) with(name string, v Term) *specCtx {
 		n.vars[k] = x
 	}
 	n.vars[name] = v
+	n.bound = make(map[string]bool, len(sc.bound)+1)
+	for k := range sc.bound {
+		n.bound[k] = true
+	}
+	n.bound[name] = true
 	return &n
 }
 
@@ -110,6 +116,10 @@ func (t *tr) resolveType(e ast.Expr, pkg *packages.Package) types.Type {
 		return t.resolveType(x.X, pkg)
 	case *ast.InterfaceType:
 		return types.NewInterfaceType(nil, nil)
+	case *ast.StructType:
+		if x.Fields == nil || len(x.Fields.List) == 0 {
+			return types.NewStruct(nil, nil)
+		}
 	}
 	return nil
 }
@@ -253,6 +263,16 @@ func (t *tr) spec(e ast.Expr, sc *specCtx) Term {
 				}
 			}
 		}
+		if a.T != nil {
+			if m, ok := a.T.Underlying().(*types.Map); ok {
+				// Go semantics: the zero value for absent keys (and nil maps)
+				dom, val, _ := t.mapHeaps(m)
+				present := and(neq(a, intLit(0)), sel(sel(t.readIn(sc.cur, dom), a), i))
+				r := ite(present, sel(sel(t.readIn(sc.cur, val), a), i), t.V.W.zero(m.Elem()))
+				r.T = m.Elem()
+				return r
+			}
+		}
 		r, ok := t.elemAt(sc.cur, a, i)
 		if !ok {
 			if strings.HasPrefix(a.Sort, "(Array ") {
@@ -308,16 +328,39 @@ func (t *tr) specIdent(x *ast.Ident, sc *specCtx) Term {
 		return Term{S: "0", Sort: SInt}
 	case "allocTop":
 		return t.readIn(sc.cur, t.allocTop)
+	case "range_coll": // the collection ranged over by the loop whose invariant this is (evaluated once, before the loop)
+		if c, ok := t.rangeColl[sc.loop]; ok {
+			return c
+		}
+		return t.specErr(sc, "range_coll used outside a range loop invariant")
+	case "range_visited": // the set of keys visited so far by the map range loop whose invariant this is
+		if v, ok := t.named[fmt.Sprintf("range_visited$%d", sc.loop)]; ok {
+			return t.readIn(sc.cur, v)
+		}
+		return t.specErr(sc, "range_visited used outside a map range loop invariant")
 	case "range_idx":
 		if v, ok := t.named[fmt.Sprintf("range_idx$%d", sc.loop)]; ok {
 			return t.readIn(sc.cur, v)
 		}
 		return t.specErr(sc, "range_idx used outside a range loop invariant")
 	}
-	if v, ok := sc.vars[x.Name]; ok {
+	if strings.HasPrefix(x.Name, "range_idx") && len(x.Name) > len("range_idx") {
+		if v, ok := t.named["range_idx$"+x.Name[len("range_idx"):]]; ok {
+			return t.readIn(sc.cur, v)
+		}
+	}
+	if strings.HasPrefix(x.Name, "range_coll") && len(x.Name) > len("range_coll") {
+		if k, err := strconv.Atoi(x.Name[len("range_coll"):]); err == nil {
+			if c, ok := t.rangeColl[k]; ok {
+				return c
+			}
+		}
+	}
+	if v, ok := sc.vars[x.Name]; ok && (sc.bound[x.Name] || !sc.pos.IsValid()) {
 		return v
 	}
-	// local variable of the unit in scope at sc.pos
+	// in a loop invariant, program variables (including parameters and variables shadowing them) denote their
+	// current values; old(x) gives a parameter's entry value
 	if sc.pos.IsValid() && t.u != nil {
 		if sc2 := t.pkg.Types.Scope().Innermost(sc.pos); sc2 != nil {
 			if _, o := sc2.LookupParent(x.Name, sc.pos); o != nil {
@@ -328,6 +371,9 @@ func (t *tr) specIdent(x *ast.Ident, sc *specCtx) Term {
 				}
 			}
 		}
+	}
+	if v, ok := sc.vars[x.Name]; ok {
+		return v
 	}
 	if d, ok := t.V.ghostVars[x.Name]; ok {
 		return t.readIn(sc.cur, t.ghostVar(d))
@@ -609,6 +655,15 @@ func (t *tr) specCall(c *ast.CallExpr, sc *specCtx) Term {
 			return t.specErr(sc, "boxed: unknown type")
 		}
 		return t.box(a, a.T, T)
+	case "let": // let(v, e, body): body with v bound to the value of e in the current context (useful around old())
+		if !need(3) {
+			return tFalse
+		}
+		id, ok := c.Args[0].(*ast.Ident)
+		if !ok {
+			return t.specErr(sc, "let: first argument must be an identifier")
+		}
+		return t.spec(c.Args[2], sc.with(id.Name, arg(1)))
 	case "addr": // addr(p.f): interior address of struct-typed field f of the object p points to
 		if !need(1) {
 			return tFalse
